@@ -100,7 +100,7 @@ func hasMemoNode(g *gram.Grammar) bool {
 	return false
 }
 
-func c03Grammar(res *explore.Result, g *gram.Grammar, inputs [][]byte, subsets bool, verbose bool) {
+func c03Grammar(res *explore.Result, g *gram.Grammar, inputs [][]byte, subsets bool, verbose bool, burn int) {
 	an := gram.Analyze(g)
 	if !an.RepsConsume {
 		res.Add("grammars_rejected_nullable_repetition", 1)
@@ -140,7 +140,7 @@ func c03Grammar(res *explore.Result, g *gram.Grammar, inputs [][]byte, subsets b
 		}
 		res.Add("memoization_subsets", 1)
 		gs := gm.String()
-		b := impl.Build(gm, impl.Options{})
+		b := impl.Build(gm, impl.Options{BurnBeforeLastShared: burn})
 		b.Mon.BudgetCalls, b.Mon.BudgetRes = budgetCalls, budgetResults
 		bad := false
 		for _, w := range inputs {
@@ -166,8 +166,16 @@ func c03Grammar(res *explore.Result, g *gram.Grammar, inputs [][]byte, subsets b
 				res.Add("states", 1)
 				res.Add("transitions", b.Mon.Calls)
 				res.Add("traces", 1)
-				c := Case{Grammar: gs, Input: string(w)}
+				c := Case{Prior: b.MemoBefore, Grammar: gs, Input: string(w), Burn: burn}
 				where := fmt.Sprintf("%s, start %d", c, s)
+				if burn > 0 {
+					where += fmt.Sprintf(" [last shared parser built %d Memoize calls after the others]", burn)
+				}
+				if (mo.problem == "budget" || po.problem == "budget") && burn > 0 {
+					bad = true
+					res.Violate("work-meter-on-finite-grammar", where+": the parse did not finish within the work meter although the grammar has finitely many parses", c)
+					continue
+				}
 				if mo.problem == "budget" || po.problem == "budget" {
 					res.Undecided("work meter tripped")
 					continue
@@ -238,7 +246,19 @@ func c03Run(env *explore.Env) *explore.Result {
 				continue
 			}
 			res.Add("grammars", 1)
-			c03Grammar(res, g, gram.Inputs(ab, len(c.Input)), false, false)
+			c03Grammar(res, g, gram.Inputs(ab, len(c.Input)), false, false, 0)
+		}
+		// far-apart cache indexes
+		for _, src := range farIndexGrammars {
+			g, err := gram.Parse(src)
+			if err != nil {
+				res.Notes = append(res.Notes, "bad far-index grammar: "+err.Error())
+				continue
+			}
+			for _, burn := range farIndexBurns() {
+				res.Add("far_index_builds", 1)
+				c03Grammar(res, g, gram.Inputs(ab, 3), false, false, burn)
+			}
 		}
 	}
 	for _, s := range specs {
@@ -252,7 +272,7 @@ func c03Run(env *explore.Env) *explore.Result {
 				return
 			}
 			res.Add("grammars", 1)
-			c03Grammar(res, g, inputs, true, false)
+			c03Grammar(res, g, inputs, true, false, 0)
 		})
 	}
 	return res
@@ -266,7 +286,7 @@ func c03Replay(raw json.RawMessage) *explore.Result {
 		return res
 	}
 	res.Notes = append(res.Notes, "case: "+c.String())
-	c03Grammar(res, g, [][]byte{[]byte(c.Input)}, false, true)
+	c03Grammar(res, g, [][]byte{[]byte(c.Input)}, false, true, c.Burn)
 	return res
 }
 
@@ -287,7 +307,7 @@ func init() {
 		Level: "model_checking",
 		Rule: "every left-recursion-free grammar of the stated spaces (root expression + shared sub-parsers referenced from several sites + inline Memoize marks) x every subset of shared sub-parsers memoized x every input x every start position; " +
 			"differential against the same grammar built without any Memoize: ordered results, returned error (position+text), position of Context.Error(); body executions per (memoized parser, position) <= 1; second run on a fresh context identical incl. CallCount; " +
-			"transition = one parser call; non-trivial = a case with at least one cache hit (a request answered without running the body)",
+			"plus four two-parser grammars built with the second memoized parser's cache index 2^k (k = 8..17) away from the first; transition = one parser call; non-trivial = a case with at least one cache hit (a request answered without running the body)",
 		Assume: []string{"the un-memoized build of the same library is the reference (C01 ties it to the semantics)"},
 		Run:    c03Run,
 		Replay: c03Replay,
